@@ -80,6 +80,21 @@ func (s *SessionStore) Clear(rw http.ResponseWriter, req *http.Request) error {
 		}
 	}
 
+	// A session saved earlier on this same response (for example a refresh
+	// performed by the very request that now signs out) may have set session
+	// cookies under names the request did not present. Expire those as well,
+	// otherwise they are all that is left in the browser after the clear.
+	for _, c := range (&http.Response{Header: rw.Header()}).Cookies() {
+		if c.MaxAge < 0 || !cookieNameRegex.MatchString(c.Name) {
+			continue
+		}
+		if _, err := req.Cookie(c.Name); err == nil {
+			// presented by the request: expired above
+			continue
+		}
+		http.SetCookie(rw, s.makeCookie(req, c.Name, "", time.Hour*-1))
+	}
+
 	return nil
 }
 
